@@ -58,6 +58,7 @@ def main(argv, tier, base_seed):
         wkinds = {}
         maxdev = 0.0
         rel = {"isotropy_checked": 0, "axis_perm_checked": 0}
+        reuse = 0
         samples = []
         max_tasks = 0
         for s in seeds:
@@ -83,6 +84,7 @@ def main(argv, tier, base_seed):
             maxdev = max(maxdev, r["maxdev"])
             for k in rel:
                 rel[k] += r["rel"][k]
+            reuse += r.get("reuse_chain_steps", 0)
             if r["stats"]["three_level_chains"] > 0:
                 nontrivial.add(r["world_digest"])
             if len(samples) < 3:
@@ -148,7 +150,7 @@ def main(argv, tier, base_seed):
                 "worlds_per_hour": round(done / wall * 3600) if wall else 0, "histories_per_hour": round(agg["runs"] / wall * 3600) if wall else 0,
                 "simulated_time": "none: no clock in cij; time = monitor's event sequence number; events: %d" % agg["events"],
                 "monitor_events": agg, "max_tasks_in_one_request": max_tasks, "strain_kinds": kinds, "history_sizes": sizes,
-                "max_request_dependence_over_scale": maxdev, "ride_along_relations": rel,
+                "max_request_dependence_over_scale": maxdev, "ride_along_relations": rel, "reused_list_chain_steps_checked": reuse,
                 "faults": "none: the task scheduler does no I/O; the simulated quantifier is the request history",
                 "real_components": ["cij.core.calculator.Calculator + qha (calculator worlds)", "cij/core/tasks.py", "cij/core/phonon_contribution/shear.py", "nonshear.py", "cij/util/voigt.py", "networkx", "numpy"],
                 "stubs": ["duck-typed calculator holding arrays (stub worlds)", "input files written by cijsim.world (calculator worlds)"], "world_kinds": wkinds,
